@@ -5,6 +5,7 @@ from core import enc, q
 from gen import SeqGen
 
 ID = "C10"
+HEAP_SUMMARY = True      # end every program with the reference-level observation (BB.Model.Heap vs id() walk)
 LEAN_MODULE = "BB.Properties.C10"
 QUICK_N = 150
 THOROUGH_N = 3000
